@@ -191,6 +191,72 @@ fn roundtrips(rep: &mut Report, rng: &mut Rng, i: u64) {
     }
 }
 
+/// Several delimited tokens in one expression: each must denote its own value whatever
+/// stands next to it (a lexer buffer reused across tokens, a literal table keyed by the
+/// bare text, an escape that changes how the *next* token is read).
+fn several_tokens(rep: &mut Report, rng: &mut Rng) {
+    const SHARED: [&str; 10] = ["1", "true", "null", "[1]", "\"a\"", "{}", "-0.5", "\"\"", "[\"x\", 2]", "{\"k\": 1}"];
+    let n = 2 + rng.below(3);
+    let mut doc = Map::new();
+    doc.insert("pad".into(), json!(0));
+    let mut toks: Vec<(String, Value)> = vec![];
+    let mut shared_body: Option<&str> = None;
+    for _ in 0..n {
+        match rng.below(8) {
+            0 | 1 => {
+                let s = if rng.chance(1, 3) { format!("{}'{}", rand_string(rng, 4), rand_string(rng, 4)) } else { rand_string(rng, 10) };
+                if let Some(sp) = spell_raw(&s) {
+                    toks.push((sp, Value::String(s)));
+                }
+            }
+            2 | 3 => {
+                let v = match rng.below(3) {
+                    0 => Value::String(rand_string(rng, 8)),
+                    1 => json!([rand_string(rng, 4), rng.range(-9, 9)]),
+                    _ => gen_doc(rng, 2),
+                };
+                let j = spell_json(&v, rng.below(3) as u8);
+                toks.push((format!("`{}`", j.replace('`', "\\`")), v));
+            }
+            4 | 5 => {
+                let k = rand_string(rng, 8);
+                let mark = json!(format!("MARK:{:x}", fnv(k.as_bytes())));
+                doc.insert(k.clone(), mark.clone());
+                toks.push((spell_json_string(&k, rng.below(3) as u8), mark));
+            }
+            _ => {
+                // the same characters between different delimiters
+                let x = *shared_body.get_or_insert(SHARED[rng.below(SHARED.len())]);
+                if rng.chance(1, 2) {
+                    toks.push((format!("'{}'", x), Value::String(x.to_string())));
+                } else {
+                    toks.push((format!("`{}`", x), refimpl::json::parse_json(x, 16).expect("shared body is JSON")));
+                }
+            }
+        }
+    }
+    if toks.len() < 2 {
+        return;
+    }
+    let docv = Value::Object(doc);
+    for order in 0..2 {
+        let seq: Vec<&(String, Value)> = if order == 0 { toks.iter().collect() } else { toks.iter().rev().collect() };
+        let text = format!("[{}]", seq.iter().map(|t| t.0.as_str()).collect::<Vec<_>>().join(if order == 0 { ", " } else { "," }));
+        let want = Value::Array(seq.iter().map(|t| t.1.clone()).collect());
+        rep.evaluations += 1;
+        match search(&text, &docv) {
+            Ok(Ok(got)) if val_identical(&got, &want) => {
+                rep.count("several_tokens_ok");
+                rep.nontrivial(fnv(text.as_bytes()));
+            }
+            other => rep.violation(
+                "C09/token-value-depends-on-neighbouring-tokens",
+                json!({"expression": text, "document": docv, "expected": want, "got": format!("{:?}", other)}),
+            ),
+        }
+    }
+}
+
 pub fn run(args: &Args) {
     let mut rep = Report::new("C09");
     // exhaustive: all strings of length <= 3 over the 8 most dangerous characters, 3 forms
@@ -241,6 +307,7 @@ pub fn run(args: &Args) {
             decoder_agreement(&mut rep, &format!("\"{}\"", rand_string(&mut rng, 10)), 1);
         }
         roundtrips(&mut rep, &mut rng, i);
+        several_tokens(&mut rep, &mut rng);
     }
     emit_report(args, &rep);
 }
